@@ -40,7 +40,7 @@ const verif::Info verif_info = {
     "next to the explicit one; before/after_first/last through const char8_t* on the const subject and on a second, mutable subject object "
     "(own buffer), and the ST::string / const char* / char forms on that mutable object too; the subject as its own separator (ST::string "
     "and c_str()) and its own c_str() as trim set. Long layout (leading byte 0xE0..0xFD, ~12% of the cases): subjects of 17 bytes..~48 KB "
-    "(half <= 300, block sizes 256..16384 +-1, 1 in 16 between 16 and 48 KB) expanded from a 64-bit value over ordinary text / {a b A} / "
+    "(half <= 300, block sizes 256..16384 +-1, 3 in 16 - about 1 case in 70 overall - between 16 and 48 KB) expanded from a 64-bit value over ordinary text / {a b A} / "
     "core alphabet with NUL and multi-byte / raw bytes / the neighbours of the letter ranges (@ ` [ { \\ | ] } ^ ~ _ DEL) / a whitespace "
     "mix (VT FF NBSP NEL NUL), with 0..700 planted separators of 1..300 bytes (255/256/257 among them): a ruler of dashes or distinct "
     "punctuation that occurs nowhere else, letters mixed with case neighbours, multi-byte characters, one containing NUL, or cut out of the "
@@ -327,7 +327,7 @@ const char *n_label(const SliceCase &k) {
 
 // the long layout (leading byte 0xE0..0xFD): subject and separator from gen/gen_long89.h, padded with long runs of trim-set members
 void decode_long(verif::Reader &r, SliceCase &k, Case &c) {
-    gen89::LongPlan lp = gen89::plan_long(r);
+    gen89::LongPlan lp = gen89::plan_long(r, 3);     // 3 of 16 long cases (about 1 case in 70 overall) are 16..48 KB
     unsigned ssel = (unsigned)r.range(0, 15); ull sv = r.range(0, 65535);
     unsigned csel = (unsigned)r.range(0, 11); ull cv = r.range(0, 65535);
     unsigned nsel = (unsigned)r.range(0, 7); ull nv = r.range(0, 65535);
